@@ -160,6 +160,72 @@ def rule_under_lock(ctx):
                      % (n.get("fn") or show(n)[:40], fn.line_of(*pos), hcls))
 
 
+# ---------------------------------------------------------------------------
+# R15: a close that drains one wait list of an object drains all of them
+
+
+def rule_drains_all(ctx):
+    from .. import guards as G
+    r = ctx.rule("C10.R15", "T2", "a close that drains one wait list of an object drains them all: where a function completes with "
+                 "NNG_ECLOSED the operations parked on one aio list of a record, every path through it that finds that list empty "
+                 "also finds empty every other list of the same record on which operations are parked (nni_list_first(..) == NULL "
+                 "observed for each) -- a close that looks at the readers only when the queue is empty and at the writers only "
+                 "otherwise leaves a sender blocked on a zero-capacity queue pending after nng_socket_close has returned", floor=3)
+    prog = ctx.prog
+    # aio lists per record: lists that some function parks an aio on
+    parked = defaultdict(set)
+    for f in prog.functions:
+        if f.cfg_failed:
+            continue
+        for c in f.calls(PARK_CALLS):
+            lf = last_field(f.expand(c.node["args"][0])) if c.node["args"] else None
+            if lf and "." in lf:
+                parked[lf.split(".")[0]].add(lf)
+    n = 0
+    for g in prog.functions:
+        if g.cfg_failed or g.file.endswith("_test.c"):
+            continue
+        lists, fields, flags = drains(prog, g)
+        lists = {l for l in lists if l and "." in l}
+        if not lists:
+            continue
+        rec = sorted(lists)[0].split(".")[0]
+        mine = {l for l in parked.get(rec, set())}
+        if len(mine) < 2 or not (lists & mine):
+            continue
+        # edges on which a list is observed empty
+        empty = defaultdict(set)
+        for c in g.calls("nni_list_first"):
+            lf = last_field(g.expand(c.node["args"][0])) if c.node["args"] else None
+            if lf in mine:
+                for b, (nz, z) in g.value_edges(c).items():
+                    empty[lf].add((b, z))
+        drained = [l for l in mine if empty.get(l)]
+        if len(drained) < 2:
+            continue          # this function is responsible for one list only (another function drains the others)
+        n += 1
+        bad = None
+        for l1 in drained:
+            for l2 in drained:
+                if l1 == l2:
+                    continue
+                e2 = empty[l2]
+                ok_edge = lambda b, k, e2=e2: (b, k) not in e2      # noqa: E731
+                pre = g.reach((g.entry, 0), edge_ok=ok_edge)
+                for (b, k) in empty[l1]:
+                    if (b, len(g.blocks[b].elems)) in pre and g.blocks[b].succs[k] is not None:
+                        if (g.exit, 0) in g.reach((g.blocks[b].succs[k], 0), edge_ok=ok_edge):
+                            bad = (l1, l2)
+        if bad:
+            ctx.fail(r, g, "%s drained, %s not looked at" % bad, g.line,
+                     "%s can return having emptied %s without ever finding %s empty: operations parked there stay pending after "
+                     "the close" % (g.name, bad[0], bad[1]))
+        else:
+            r.ob(g, "every path that drains one of %s drains the others too" % ", ".join(sorted(drained)))
+    if n < 3:
+        raise AnalysisBroken("only %d close functions that drain several wait lists found" % n)
+
+
 def run(ctx):
     ctx.guard(rule_pairing)
     ctx.guard(rule_reentry)
@@ -1369,6 +1435,7 @@ def run(ctx):   # noqa: F811
     ctx.guard(rule_admitted_then_closing)
     ctx.guard(rule_release_listed)
     ctx.guard(rule_wakeups)
+    ctx.guard(rule_drains_all)
     from . import c02
     ctx.guard(c02.rule_a7)
     for rr in ctx.rules:
